@@ -50,6 +50,24 @@ def thick_clouds(ctx, n, nw):
         return _run(ctx, tm, wn, dl)
     depth, trans, tau = run(True)
     depth0, trans0, tau0 = run(False)
+    # the SAME contribution object evaluated again after the cloud top moved (sampler step): layers must follow the
+    # current cloud-top pressure only
+    Pc2 = ctx.real('P_cloud2', gt=0)
+    tm2 = state_model(TransmissionModel, n, wn, Rp, Rs, z, dz, rho, P=P)
+    cloud = SimpleCloudsContribution(clouds_pressure=Pc)
+    tm2.add_contribution(cs[0])
+    tm2.add_contribution(cloud)
+    tm2.contribution_list.sort(key=lambda c: c.order)
+    _run(ctx, tm2, wn, dl)
+    cloud.cloudsPressure = Pc2
+    depth_b, trans_b, tau_b = _run(ctx, tm2, wn, dl)
+    for l in range(n):
+        cloudy2 = bool(ctx.le_strict(Pc2, P[l]))
+        for w in range(nw):
+            if cloudy2:
+                ctx.goal('second_eval_opaque[%d,%d]' % (l, w), ctx.eq(trans_b[l, w], 0.0))
+            else:
+                ctx.goal('second_eval_untouched[%d,%d]' % (l, w), ctx.eq(trans_b[l, w], trans0[l, w]))
     ctx.cover_if('cloud_inside', ctx.and_(ctx.le(Pc, P[0]), ctx.lt(P[n - 1], Pc)))
     ctx.cover_if('cloud_above_all', ctx.le(Pc, P[n - 1]))
     ctx.cover_if('cloud_below_all', ctx.lt(P[0], Pc))
